@@ -12,7 +12,8 @@ ERRSTAT = "pc = 0;\nStat = STAT_INS;\n"
 ABORTS = "register pP { c : 8 = 0; }\np_c = P_c + 1;\npc = 0;\nwire d : 8;\nd = 7 / (2 - P_c);\nStat = STAT_AOK;\n"
 REJECTED = "wire x : 8;\npc = 0;\nStat = STAT_AOK;\n"
 OPTIONS = ["-c", "--check", "-d", "--debug", "-q", "--quiet", "-t", "--testing", "-h", "--help", "-i", "--interactive",
-           "--ungroup-debug-wires", "--trace-assignments", "--version", "--bogus", "-Z", "-dq", "-qt", "-tdi", "-cq", "-dd", "--debug=1", "--chec", "-"]
+           "--ungroup-debug-wires", "--trace-assignments", "--version", "--bogus", "-Z", "-dq", "-qt", "-tdi", "-cq", "-dd", "--debug=1", "--chec", "-",
+           "--d", "--q", "--h", "--c", "--v", "--d=1", ""]
 SHORT = {"c": "check", "d": "debug", "q": "quiet", "t": "testing", "h": "help", "i": "interactive"}
 LONG = set(SHORT.values()) | {"ungroup-debug-wires", "trace-assignments", "version"}
 
@@ -39,6 +40,8 @@ def getopts(args):
             break
         if a.startswith("--"):
             name = a[2:]
+            if len(name.split("=")[0]) == 1 and name[0] in SHORT:
+                name = SHORT[name[0]] + name[1:]        # the crate reads a one-letter long name as the short name
             if "=" in name or name not in LONG:
                 return False, set(), []
             seen.append(name)
@@ -81,7 +84,7 @@ def check(report, tier, seed):
             open(named[nm], "w").write(gen.yo_line(0, b"\x30\xf4") + "\n")
         cases = []
         for k in range(n):
-            opts = [o for o in OPTIONS if rng.random() < (0.07 if o in ("-h", "--help", "--version", "--bogus", "-Z", "-dd", "--debug=1", "--chec", "-") else 0.13)]
+            opts = [o for o in OPTIONS if rng.random() < (0.05 if o in ("-h", "--help", "--version", "--bogus", "-Z", "-dd", "--debug=1", "--chec", "-", "--h", "--v", "--d=1", "", "--c") else 0.11)]
             rng.shuffle(opts)
             hk = rng.choice(["halting", "halting", "forever", "errstat", "aborts", "rejected", "missing"])
             hcl_path = files.get(hk + ".hcl", os.path.join(d, "nonexistent.hcl"))
@@ -97,6 +100,10 @@ def check(report, tier, seed):
             free = [hcl_path, yo_path, t if t is not None else "5", "extra"][:nfree]
             if t is None and nfree >= 3:
                 free = free[:2]
+            if rng.random() < 0.06 and free:
+                # an argument that is not valid UTF-8: it is read lossily and reported like any other bad argument
+                j = rng.randrange(len(free))
+                free[j] = rng.choice(["\udcff.hcl", "prog\udcfe.yo", "1\udcff", "\udcc3("])
             args = list(opts)
             pos = rng.randint(0, len(args))
             args = args[:pos] + free + args[pos:]
@@ -105,7 +112,8 @@ def check(report, tier, seed):
                 cut = rng.randint(0, len(args))
                 args = args[:cut] + ["--"] + args[cut:]
             # what the model needs to know about this invocation: the option syntax as the getopts crate reads it
-            opts_ok, flags, free = getopts(args)
+            lossy = [a.encode("utf-8", "surrogateescape").decode("utf-8", "replace") for a in args]
+            opts_ok, flags, free = getopts(lossy)
             # what the positionals really are (the terminator and a lone "-" can shift them)
             hcl_kind = {files[k]: k[:-4] for k in files}
             hk = hcl_kind.get(free[0], "missing") if free else hk
@@ -117,16 +125,33 @@ def check(report, tier, seed):
                    "hcl": "U" if hk == "missing" else "R" if hk == "rejected" else "A",
                    "yo": "M" if yk2 == "missing" else "U" if yk2 in ("bad", "latin") else "L",
                    "sim": "A" if hk == "aborts" and budget(free) >= 3 else "C", "free": free}   # the division by zero happens in the third cycle
-            cases.append((args, inv, hk))
+            cases.append((args, inv, hk, lossy))
+        # the model decides from the RAW argument vector (CliArgs.main_in_world: its own reading of the option
+        # syntax); the outside world is a table: what each file is for the front end, for the loader, and from
+        # which cycle budget on the simulation of that HCL file aborts
+        bad_as_hcl = "U" if open(bad_yo, "rb").read().startswith(b"\xff") else "R"
+        world = [(files["halting.hcl"], "A", "U", "-"), (files["forever.hcl"], "A", "U", "-"), (files["errstat.hcl"], "A", "U", "-"),
+                 (files["aborts.hcl"], "A", "U", "3"), (files["rejected.hcl"], "R", "U", "-"),
+                 (good_yo, "R", "L", "-"), (wrong_ext, "R", "L", "-"), (bad_yo, bad_as_hcl, "U", "-"), (invalid_utf8_yo, "U", "U", "-")]
+        world += [(pth, "R", "L", "-") for pth in named.values()]
+        entries = " ".join("%s:%s:%s:%s" % (lib.hexs(pth), a_, b_, c_) for pth, a_, b_, c_ in world)
         lines = []
-        for i, (args, inv, hk) in enumerate(cases):
-            lines.append("a%d mcli %d %d %d %d %s %s %s %s" % (i, inv["opts_ok"], inv["help"], inv["version"], inv["check"], inv["hcl"], inv["yo"], inv["sim"],
-                                                                " ".join(lib.hexs(f) for f in inv["free"])))
+        for i, (args, inv, hk, lossy) in enumerate(cases):
+            lines.append("a%d margv %d %s %s" % (i, len(lossy), " ".join(lib.hexs(x) for x in lossy), entries))
         model = lib.run_cases(driver, lines)
-        for i, (args, inv, hk) in enumerate(cases):
+        # the python reading of the option syntax (used by the generator) must agree with the model's
+        lines2 = ["b%d mcli %d %d %d %d %s %s %s %s" % (i, inv["opts_ok"], inv["help"], inv["version"], inv["check"], inv["hcl"], inv["yo"], inv["sim"],
+                                                       " ".join(lib.hexs(f) for f in inv["free"])) for i, (args, inv, hk, lossy) in enumerate(cases)]
+        model2 = lib.run_cases(driver, lines2)
+        for i, (args, inv, hk, lossy) in enumerate(cases):
+            if model.get("a%d" % i) != model2.get("b%d" % i):
+                report.broken.append({"what": "the check's own reading of the arguments disagrees with the model's parse_argv",
+                                      "detail": {"args": [a.replace(d, "<tmp>") for a in args], "argv-model": model.get("a%d" % i), "digested": model2.get("b%d" % i)}})
+                break
+        for i, (args, inv, hk, lossy) in enumerate(cases):
             want = model.get("a%d" % i, ["?"])[0].split()
             try:
-                r = subprocess.run([cli] + args, capture_output=True, timeout=60, stdin=subprocess.DEVNULL)
+                r = subprocess.run([cli.encode()] + [a.encode("utf-8", "surrogateescape") for a in args], capture_output=True, timeout=60, stdin=subprocess.DEVNULL)
             except subprocess.TimeoutExpired:
                 report.violation("cli-hang", "no termination within 60 s: %r" % args, {"args": args})
                 continue
@@ -158,8 +183,8 @@ def check(report, tier, seed):
                 if hk == "errstat" and t >= 2 and "Error code: 4" not in out:
                     report.violation("cli-wrong-run", "error status not reported", rep)
     report.coverage["evaluations"] = len(cases)
-    report.coverage["distinct_nontrivial"] = len(set(tuple(a) for a, _, _ in cases))
-    report.coverage["rule"] = ("argument vectors: random subsets of the ten options in short, long and combined (-dq) spellings, unknown, doubled, abbreviated and valued ones, a lone -, the -- terminator, around 0-4 positionals; HCL file valid (halting, running "
+    report.coverage["distinct_nontrivial"] = len(set(tuple(a) for a, _, _, _ in cases))
+    report.coverage["rule"] = ("argument vectors: random subsets of the ten options in short, long and combined (-dq) spellings, unknown, doubled, abbreviated and valued ones, a lone -, the empty string, one-letter long names, arguments that are not valid UTF-8, the -- terminator, around 0-4 positionals; HCL file valid (halting, running "
                                "forever, error status, aborting with division by zero), rejected or missing; image valid, missing, wrong extension, unloadable, "
                                "not UTF-8; timeouts absent 0 1 3 9999 2^32-1 2^32 -1 abc '' +5 007 '1 ' 10^20; the real binary's exit status and outcome class "
                                "(usage / version / syntax OK / final state / message) against Cli.main_model, and the printed cycle counts against the timeout")
